@@ -190,8 +190,83 @@ uf_words!(uf4, 4);
 uf_words!(uf8, 8);
 uf_words!(uf16, 16);
 
+
+/// Lock-step / transcript oracle for the MIX calls of one block operation (`mix_oracle!(module, calls per round, rounds)`).
+/// One function `step(rot, a0, a1) -> (y0, y1)` is put in place of `mix` / `inv_mix` AND of the reference's
+/// `bcref::threefish::mix` / `inv_mix` (real_mix / ref_mix only differ in the parameter types).  Harness shape:
+///      <operation 1>;  replay_same() | replay_inverse();  <operation 2>;  assert!(done())
+///   RECORD (operation 1)  every call returns a fresh unconstrained pair and is appended to the transcript
+///                         (rotation, arguments, results): operation 1 is run with MIX replaced by ANY function of
+///                         (rotation, arguments) -- not even functional consistency is assumed (over-approximation).
+///   replay_same           the k-th call of operation 2 ASSERTS that its rotation and arguments equal those of the k-th
+///                         recorded call and returns the recorded results (both sides call MIX in the order d, j).
+///                         Proves: operation 1 == operation 2 whatever function MIX is, provided it is the same function
+///                         on both sides: licensed by c_mix / c_inv_mix (real mix == reference MIX, every rotation byte).
+///   replay_inverse        the k-th call of operation 2 (round R-1-k/H, position k%H) ASSERTS that its rotation and
+///                         arguments equal the rotation and RESULTS of the recorded call of that round and position and
+///                         returns the recorded ARGUMENTS.  Sound for every pair (g, g') with g'(r, g(r, x)) == x:
+///                         licensed by l_mix_inverse (both orders).
+/// A replayed value is only used after `assert!(same)` (then assumed), `done()` checks that every recorded call was
+/// consumed and that the call count is the expected one.  The transcript is chunked in rows of 64 so that CBMC keeps
+/// every cell a scalar (arrays above 64 elements lose field sensitivity); all indices are concrete during symex.
+macro_rules! mix_oracle {
+    ($m:ident, $h:expr, $rounds:expr) => {
+        pub mod $m {
+            pub const H: usize = $h;
+            pub const CALLS: usize = $h * $rounds;
+            pub const CH: usize = (CALLS + 63) / 64;
+            pub static mut RT: [[u32; 64]; CH] = [[0; 64]; CH];
+            pub static mut A0: [[u64; 64]; CH] = [[0; 64]; CH];
+            pub static mut A1: [[u64; 64]; CH] = [[0; 64]; CH];
+            pub static mut Y0: [[u64; 64]; CH] = [[0; 64]; CH];
+            pub static mut Y1: [[u64; 64]; CH] = [[0; 64]; CH];
+            pub static mut N: usize = 0;
+            pub static mut R: usize = 0;
+            pub static mut MODE: u8 = 0;
+            #[allow(static_mut_refs)]
+            fn step(rot: u32, a0: u64, a1: u64) -> (u64, u64) {
+                unsafe {
+                    if MODE == 0 {
+                        assert!(N < CALLS);
+                        let (y0, y1): (u64, u64) = (kani::any(), kani::any());
+                        let (c, i) = (N / 64, N % 64);
+                        RT[c][i] = rot; A0[c][i] = a0; A1[c][i] = a1; Y0[c][i] = y0; Y1[c][i] = y1;
+                        N += 1;
+                        (y0, y1)
+                    } else {
+                        assert!(R < N && N == CALLS);
+                        let k = R;
+                        R += 1;
+                        let j = if MODE == 1 { k } else { (N / H - 1 - k / H) * H + k % H };
+                        let (c, i) = (j / 64, j % 64);
+                        if MODE == 1 {
+                            let same = RT[c][i] == rot && A0[c][i] == a0 && A1[c][i] == a1;
+                            assert!(same);
+                            kani::assume(same);
+                            (Y0[c][i], Y1[c][i])
+                        } else {
+                            let same = RT[c][i] == rot && Y0[c][i] == a0 && Y1[c][i] == a1;
+                            assert!(same);
+                            kani::assume(same);
+                            (A0[c][i], A1[c][i])
+                        }
+                    }
+                }
+            }
+            pub fn real_mix(r: u8, x: (u64, u64)) -> (u64, u64) { step(r as u32, x.0, x.1) }
+            pub fn ref_mix(r: u32, x0: u64, x1: u64) -> (u64, u64) { step(r, x0, x1) }
+            pub fn replay_same() { unsafe { MODE = 1; R = 0; } }
+            pub fn replay_inverse() { unsafe { MODE = 2; R = 0; } }
+            pub fn done() -> bool { unsafe { MODE != 0 && R == N && N == CALLS } }
+        }
+    };
+}
+mix_oracle!(ox4, 2, 72);
+mix_oracle!(ox8, 4, 72);
+mix_oracle!(ox16, 8, 80);
+
 macro_rules! threefish_type {
-    ($ty:ident, nw=$nw:expr, ns=$ns:expr, uf=$uf:ident, name=$text:expr;
+    ($ty:ident, nw=$nw:expr, ns=$ns:expr, uf=$uf:ident, ox=$ox:ident, name=$text:expr;
      $ks:ident, $ksb:ident, $enc:ident, $dec:ident, $bytes:ident, $api:ident, $rt1:ident, $rt2:ident,
      $keylen:ident, $same:ident, $weak:ident, $names:ident, $mb:ident, $z:ident) => {
         impl $ty {
@@ -219,25 +294,35 @@ macro_rules! threefish_type {
             let z = $ty::new_with_tweak(&key, &[0u8; 16]);
             assert!(eq_sk(&c.sk, &z.sk));
         }
+        // block functions on words == Threefish for EVERY subkey array: MIX replaced on both sides by the lock-step oracle,
+        // what is left is the subkey injection, the rotation-constant selection and the word permutation
         #[kani::proof]
-        #[kani::stub(mix, spec_mix)]
+        #[kani::stub(mix, $ox::real_mix)]
+        #[kani::stub(bcref::threefish::mix, $ox::ref_mix)]
         #[kani::unwind(82)]
         fn $enc() {
             let c = $ty { sk: kani::any() };
             let p: [u64; $nw] = kani::any();
             let mut b = p;
             c.encrypt_block_u64(&mut b);
-            assert!(eq_w(&b, &r::encrypt_with::<$nw, $ns>(&c.sk, &p)));
+            $ox::replay_same();
+            let e = r::encrypt_with::<$nw, $ns>(&c.sk, &p);
+            assert!($ox::done());
+            assert!(eq_w(&b, &e));
         }
         #[kani::proof]
-        #[kani::stub(inv_mix, spec_inv_mix)]
+        #[kani::stub(inv_mix, $ox::real_mix)]
+        #[kani::stub(bcref::threefish::inv_mix, $ox::ref_mix)]
         #[kani::unwind(82)]
         fn $dec() {
             let c = $ty { sk: kani::any() };
             let p: [u64; $nw] = kani::any();
             let mut b = p;
             c.decrypt_block_u64(&mut b);
-            assert!(eq_w(&b, &r::decrypt_with::<$nw, $ns>(&c.sk, &p)));
+            $ox::replay_same();
+            let e = r::decrypt_with::<$nw, $ns>(&c.sk, &p);
+            assert!($ox::done());
+            assert!(eq_w(&b, &e));
         }
         // byte entry points = little-endian wrap of the u64 entry points (the latter abstracted to an uninterpreted function)
         #[kani::proof]
@@ -260,9 +345,11 @@ macro_rules! threefish_type {
             assert!(eq_n(&blk.0, &e));
         }
         #[kani::proof]
-        #[kani::stub(mix, spec_mix)]
-        #[kani::stub(inv_mix, spec_inv_mix)]
-        #[kani::unwind(82)]
+        #[kani::stub(mix, $ox::real_mix)]
+        #[kani::stub(inv_mix, $ox::real_mix)]
+        #[kani::stub(bcref::threefish::mix, $ox::ref_mix)]
+        #[kani::stub(bcref::threefish::inv_mix, $ox::ref_mix)]
+        #[kani::unwind(132)]
         fn $api() {
             let key: [u8; 8 * $nw] = kani::any();
             let mut tweak: [u8; 16] = kani::any();
@@ -277,31 +364,43 @@ macro_rules! threefish_type {
             let mut e = b;
             if kani::any() {
                 cipher::BlockCipherEncrypt::encrypt_block(&c, &mut blk);
+                $ox::replay_same();
                 r::encrypt::<$nw, $ns>(&key, &tweak, &mut e);
             } else {
                 cipher::BlockCipherDecrypt::decrypt_block(&c, &mut blk);
+                $ox::replay_same();
                 r::decrypt::<$nw, $ns>(&key, &tweak, &mut e);
             }
+            assert!($ox::done());
             assert!(eq_n(&blk.0, &e));
         }
+        // C01 on the real block functions for EVERY subkey array: mix / inv_mix replaced by the inverse-pair oracle
         #[kani::proof]
+        #[kani::stub(mix, $ox::real_mix)]
+        #[kani::stub(inv_mix, $ox::real_mix)]
         #[kani::unwind(82)]
         fn $rt1() {
             let c = $ty { sk: kani::any() };
             let p: [u64; $nw] = kani::any();
             let mut b = p;
             c.encrypt_block_u64(&mut b);
+            $ox::replay_inverse();
             c.decrypt_block_u64(&mut b);
+            assert!($ox::done());
             assert!(eq_w(&b, &p));
         }
         #[kani::proof]
+        #[kani::stub(mix, $ox::real_mix)]
+        #[kani::stub(inv_mix, $ox::real_mix)]
         #[kani::unwind(82)]
         fn $rt2() {
             let c = $ty { sk: kani::any() };
             let p: [u64; $nw] = kani::any();
             let mut b = p;
             c.decrypt_block_u64(&mut b);
+            $ox::replay_inverse();
             c.encrypt_block_u64(&mut b);
+            assert!($ox::done());
             assert!(eq_w(&b, &p));
         }
         #[kani::proof]
@@ -372,50 +471,50 @@ macro_rules! threefish_type {
 // @ob name=t256_ks props=C10,C20 kind=contract fn=threefish::Threefish256::new_with_tweak_u64 timeout=300
 // @ob name=t256_ks_bytes props=C10,C11,C20 kind=contract fn=threefish::Threefish256::new_with_tweak,threefish::Threefish256::new timeout=300
 // @ob name=t256_enc props=C10,C20 kind=contract fn=threefish::Threefish256::encrypt_block_u64 uses=c_mix timeout=600
-// (times out at 600 s: unregistered) @-ob name=t256_dec props=C10,C20 kind=contract fn=threefish::Threefish256::decrypt_block_u64 uses=c_inv_mix timeout=600
+// @ob name=t256_dec props=C10,C20 kind=contract fn=threefish::Threefish256::decrypt_block_u64 uses=c_inv_mix timeout=600
 // @ob name=t256_bytes props=C10,C20 kind=contract fn=threefish::Threefish256::encrypt_block,threefish::Threefish256::decrypt_block uses=t256_enc,t256_dec timeout=300
-// (times out at 600 s: unregistered) @-ob name=t256_api props=C10,C20 kind=contract fn=threefish::Threefish256::new,threefish::Threefish256::new_with_tweak,threefish::Threefish256::encrypt_block,threefish::Threefish256::decrypt_block uses=c_mix,c_inv_mix timeout=600
-// (not verified within this round: unregistered) @-ob name=t256_rt1 props=C01 kind=contract tier=thorough fn=threefish::Threefish256::encrypt_block_u64,threefish::Threefish256::decrypt_block_u64 timeout=3600
-// (not verified within this round: unregistered) @-ob name=t256_rt2 props=C01 kind=contract tier=thorough fn=threefish::Threefish256::encrypt_block_u64,threefish::Threefish256::decrypt_block_u64 timeout=3600
+// @ob name=t256_api props=C10,C20 kind=contract fn=threefish::Threefish256::new,threefish::Threefish256::new_with_tweak,threefish::Threefish256::encrypt_block,threefish::Threefish256::decrypt_block uses=c_mix,c_inv_mix timeout=900
+// @ob name=t256_rt1 props=C01 kind=lemma fn=threefish::Threefish256::encrypt_block_u64,threefish::Threefish256::decrypt_block_u64 uses=l_mix_inverse timeout=600
+// @ob name=t256_rt2 props=C01 kind=lemma fn=threefish::Threefish256::encrypt_block_u64,threefish::Threefish256::decrypt_block_u64 uses=l_mix_inverse timeout=600
 // @ob name=t256_keylen props=C11 kind=bounded bound="slice length <= 300" fn=threefish::Threefish256::new_from_slice timeout=300
 // @ob name=t256_same props=C11,C12 kind=contract fn=threefish::Threefish256::new_from_slice,threefish::Threefish256::new,threefish::Threefish256::clone timeout=300
 // @ob name=t256_weak props=C13 kind=contract fn=threefish::Threefish256::weak_key_test,threefish::Threefish256::new_checked timeout=300
 // @ob name=t256_names props=C19 kind=contract fn=threefish::Threefish256::fmt,threefish::Threefish256::write_alg_name timeout=300
 // @ob name=t256_mb props=C04,C15 kind=bounded bound="n in {0, 1, 3} blocks (ParBlocksSize = 1)" fn=threefish::Threefish256::encrypt_with_backend,threefish::Threefish256::encrypt_block uses=t256_enc timeout=600
 // @ob name=z_t256 props=C16 cfg=zeroize kind=contract fn=threefish::Threefish256::drop,threefish::Threefish256::clone timeout=600
-threefish_type!(Threefish256, nw=4, ns=19, uf=uf4, name="Threefish256";
+threefish_type!(Threefish256, nw=4, ns=19, uf=uf4, ox=ox4, name="Threefish256";
     t256_ks, t256_ks_bytes, t256_enc, t256_dec, t256_bytes, t256_api, t256_rt1, t256_rt2, t256_keylen, t256_same, t256_weak, t256_names, t256_mb, z_t256);
 // Threefish512: N_w = 8, 72 rounds, 19 subkeys
 // @ob name=t512_ks props=C10,C20 kind=contract fn=threefish::Threefish512::new_with_tweak_u64 timeout=300
 // @ob name=t512_ks_bytes props=C10,C11,C20 kind=contract fn=threefish::Threefish512::new_with_tweak,threefish::Threefish512::new timeout=300
-// (not verified within this round: unregistered) @-ob name=t512_enc props=C10,C20 kind=contract tier=thorough fn=threefish::Threefish512::encrypt_block_u64 uses=c_mix timeout=3600
-// (not verified within this round: unregistered) @-ob name=t512_dec props=C10,C20 kind=contract tier=thorough fn=threefish::Threefish512::decrypt_block_u64 uses=c_inv_mix timeout=3600
+// @ob name=t512_enc props=C10,C20 kind=contract fn=threefish::Threefish512::encrypt_block_u64 uses=c_mix timeout=600
+// @ob name=t512_dec props=C10,C20 kind=contract fn=threefish::Threefish512::decrypt_block_u64 uses=c_inv_mix timeout=600
 // @ob name=t512_bytes props=C10,C20 kind=contract fn=threefish::Threefish512::encrypt_block,threefish::Threefish512::decrypt_block uses=t512_enc,t512_dec timeout=300
-// (not verified within this round: unregistered) @-ob name=t512_api props=C10,C20 kind=contract tier=thorough fn=threefish::Threefish512::new,threefish::Threefish512::new_with_tweak,threefish::Threefish512::encrypt_block,threefish::Threefish512::decrypt_block uses=c_mix,c_inv_mix timeout=3600
-// (not verified within this round: unregistered) @-ob name=t512_rt1 props=C01 kind=contract tier=thorough fn=threefish::Threefish512::encrypt_block_u64,threefish::Threefish512::decrypt_block_u64 timeout=3600
-// (not verified within this round: unregistered) @-ob name=t512_rt2 props=C01 kind=contract tier=thorough fn=threefish::Threefish512::encrypt_block_u64,threefish::Threefish512::decrypt_block_u64 timeout=3600
+// @ob name=t512_api props=C10,C20 kind=contract fn=threefish::Threefish512::new,threefish::Threefish512::new_with_tweak,threefish::Threefish512::encrypt_block,threefish::Threefish512::decrypt_block uses=c_mix,c_inv_mix timeout=900
+// @ob name=t512_rt1 props=C01 kind=lemma fn=threefish::Threefish512::encrypt_block_u64,threefish::Threefish512::decrypt_block_u64 uses=l_mix_inverse timeout=600
+// @ob name=t512_rt2 props=C01 kind=lemma fn=threefish::Threefish512::encrypt_block_u64,threefish::Threefish512::decrypt_block_u64 uses=l_mix_inverse timeout=600
 // @ob name=t512_keylen props=C11 kind=bounded bound="slice length <= 300" fn=threefish::Threefish512::new_from_slice timeout=300
 // @ob name=t512_same props=C11,C12 kind=contract fn=threefish::Threefish512::new_from_slice,threefish::Threefish512::new,threefish::Threefish512::clone timeout=300
 // @ob name=t512_weak props=C13 kind=contract fn=threefish::Threefish512::weak_key_test,threefish::Threefish512::new_checked timeout=300
 // @ob name=t512_names props=C19 kind=contract fn=threefish::Threefish512::fmt,threefish::Threefish512::write_alg_name timeout=300
 // @ob name=t512_mb props=C04,C15 kind=bounded bound="n in {0, 1, 3} blocks (ParBlocksSize = 1)" fn=threefish::Threefish512::encrypt_with_backend,threefish::Threefish512::encrypt_block uses=t512_enc timeout=600
 // @ob name=z_t512 props=C16 cfg=zeroize kind=contract fn=threefish::Threefish512::drop,threefish::Threefish512::clone timeout=600
-threefish_type!(Threefish512, nw=8, ns=19, uf=uf8, name="Threefish512";
+threefish_type!(Threefish512, nw=8, ns=19, uf=uf8, ox=ox8, name="Threefish512";
     t512_ks, t512_ks_bytes, t512_enc, t512_dec, t512_bytes, t512_api, t512_rt1, t512_rt2, t512_keylen, t512_same, t512_weak, t512_names, t512_mb, z_t512);
 // Threefish1024: N_w = 16, 80 rounds, 21 subkeys
 // @ob name=t1024_ks props=C10,C20 kind=contract fn=threefish::Threefish1024::new_with_tweak_u64 timeout=300
 // @ob name=t1024_ks_bytes props=C10,C11,C20 kind=contract fn=threefish::Threefish1024::new_with_tweak,threefish::Threefish1024::new timeout=300
-// (not verified within this round: unregistered) @-ob name=t1024_enc props=C10,C20 kind=contract tier=thorough fn=threefish::Threefish1024::encrypt_block_u64 uses=c_mix timeout=3600
-// (not verified within this round: unregistered) @-ob name=t1024_dec props=C10,C20 kind=contract tier=thorough fn=threefish::Threefish1024::decrypt_block_u64 uses=c_inv_mix timeout=3600
+// @ob name=t1024_enc props=C10,C20 kind=contract fn=threefish::Threefish1024::encrypt_block_u64 uses=c_mix timeout=600
+// @ob name=t1024_dec props=C10,C20 kind=contract fn=threefish::Threefish1024::decrypt_block_u64 uses=c_inv_mix timeout=600
 // @ob name=t1024_bytes props=C10,C20 kind=contract fn=threefish::Threefish1024::encrypt_block,threefish::Threefish1024::decrypt_block uses=t1024_enc,t1024_dec timeout=300
-// (not verified within this round: unregistered) @-ob name=t1024_api props=C10,C20 kind=contract tier=thorough fn=threefish::Threefish1024::new,threefish::Threefish1024::new_with_tweak,threefish::Threefish1024::encrypt_block,threefish::Threefish1024::decrypt_block uses=c_mix,c_inv_mix timeout=3600
-// (not verified within this round: unregistered) @-ob name=t1024_rt1 props=C01 kind=contract tier=thorough fn=threefish::Threefish1024::encrypt_block_u64,threefish::Threefish1024::decrypt_block_u64 timeout=3600
-// (not verified within this round: unregistered) @-ob name=t1024_rt2 props=C01 kind=contract tier=thorough fn=threefish::Threefish1024::encrypt_block_u64,threefish::Threefish1024::decrypt_block_u64 timeout=3600
+// @ob name=t1024_api props=C10,C20 kind=contract fn=threefish::Threefish1024::new,threefish::Threefish1024::new_with_tweak,threefish::Threefish1024::encrypt_block,threefish::Threefish1024::decrypt_block uses=c_mix,c_inv_mix timeout=900
+// @ob name=t1024_rt1 props=C01 kind=lemma fn=threefish::Threefish1024::encrypt_block_u64,threefish::Threefish1024::decrypt_block_u64 uses=l_mix_inverse timeout=600
+// @ob name=t1024_rt2 props=C01 kind=lemma fn=threefish::Threefish1024::encrypt_block_u64,threefish::Threefish1024::decrypt_block_u64 uses=l_mix_inverse timeout=600
 // @ob name=t1024_keylen props=C11 kind=bounded bound="slice length <= 300" fn=threefish::Threefish1024::new_from_slice timeout=300
 // @ob name=t1024_same props=C11,C12 kind=contract fn=threefish::Threefish1024::new_from_slice,threefish::Threefish1024::new,threefish::Threefish1024::clone timeout=300
 // @ob name=t1024_weak props=C13 kind=contract fn=threefish::Threefish1024::weak_key_test,threefish::Threefish1024::new_checked timeout=300
 // @ob name=t1024_names props=C19 kind=contract fn=threefish::Threefish1024::fmt,threefish::Threefish1024::write_alg_name timeout=300
 // @ob name=t1024_mb props=C04,C15 kind=bounded bound="n in {0, 1, 3} blocks (ParBlocksSize = 1)" fn=threefish::Threefish1024::encrypt_with_backend,threefish::Threefish1024::encrypt_block uses=t1024_enc timeout=600
 // (times out at 600 s: unregistered) @-ob name=z_t1024 props=C16 cfg=zeroize kind=contract fn=threefish::Threefish1024::drop,threefish::Threefish1024::clone timeout=600
-threefish_type!(Threefish1024, nw=16, ns=21, uf=uf16, name="Threefish1024";
+threefish_type!(Threefish1024, nw=16, ns=21, uf=uf16, ox=ox16, name="Threefish1024";
     t1024_ks, t1024_ks_bytes, t1024_enc, t1024_dec, t1024_bytes, t1024_api, t1024_rt1, t1024_rt2, t1024_keylen, t1024_same, t1024_weak, t1024_names, t1024_mb, z_t1024);
